@@ -448,8 +448,11 @@ def check_refs_v1(rep, first_line, sha, ref, caps, rp):
         from dulwich.protocol import format_ref_line
     except ImportError:
         return 0
+    from dulwich.protocol import Protocol, pkt_line
     second = format_ref_line(ref + b"2", sha)
-    o = outcome(read_pkt_refs_v1, [first_line, second])
+    # the whole path of an advertisement: pkt_line -> read_pkt_seq -> read_pkt_refs_v1
+    wire = pkt_line(first_line) + pkt_line(second) + pkt_line(None)
+    o = outcome(lambda: read_pkt_refs_v1(Protocol(BytesIO(wire).read, lambda d: None).read_pkt_seq()))
     want = ({ref: sha, ref + b"2": sha}, set(caps))
     if o != ("ok", want):
         rep.v("dulwich/client.py:read_pkt_refs_v1", "CapsRoundTrip", f"ncaps={len(caps)} -> {okind(o) if o[0] != 'ok' else 'wrong refs/caps'}",
@@ -980,7 +983,7 @@ def run(ctx):
     ctx.assumptions += [
         "scripted _recv stands for a socket: it returns 1..asked bytes, 0 only at end of stream",
         "payload content does not influence framing: sizes >= 65515 are exercised with a fixed byte pattern",
-        "capability tokens over {'a','='}, ref names over three samples; whitespace other than SP inside tokens not enumerated",
+        "capability tokens over {'a','='} plus one token with an interior TAB (non-SP whitespace inside a value), ref names over three samples",
         "C git 2.39.5 as the only third-party peer",
     ]
     return ctx.finish(exhaustive=False)
